@@ -123,6 +123,31 @@ func (ex *Exec) onStack(f *ssa.Function) bool {
 }
 
 func (ex *Exec) callFunc(f *ssa.Function, args, freeVars []Term, cc *ssa.CallCommon, h *Heap, reach Term, at ssa.Value) []Term {
+	if ex.depth == 0 && ex.contract != nil && len(ex.contract.PreCalls) > 0 {
+		ex.counters["pc."+f.Name()]++
+		for _, pc := range ex.contract.PreCalls {
+			if pc.Field != f.Name() || !ex.q.propActive(pc.Clause.OnlyProp) {
+				continue
+			}
+			var blk *ssa.BasicBlock
+			if ins, ok := at.(ssa.Instruction); ok {
+				blk = ins.Block()
+			}
+			vars := ex.paramVars()
+			if blk != nil {
+				vars = ex.loopVars(blk, func(phi *ssa.Phi) Term { return ex.val(phi) }, h)
+			}
+			for i, a := range args {
+				vars[fmt.Sprintf("arg%d", i)] = SV{a, nil}
+				if cc != nil && i < len(cc.Args) {
+					vars[fmt.Sprintf("arg%d", i)] = SV{a, cc.Args[i].Type()}
+				}
+			}
+			sc := ex.specCtx(vars, h.clone())
+			ex.q.oblige(fmt.Sprintf("%s/precall@%s#%d.%s", ex.q.fnName, f.Name(), ex.counters["pc."+f.Name()], pc.Clause.Label), "pre", reach, sc.evalBool(pc.Clause),
+				ex.P.fset.Position(at.Pos()), "required before calling "+f.Name()+": "+pc.Clause.Text)
+		}
+	}
 	rs := ex.callFunc1(f, args, freeVars, cc, h, reach, at)
 	if ex.depth == 0 && ex.contract != nil && len(ex.contract.Witnesses) > 0 {
 		ex.counters["wit."+f.Name()]++
